@@ -3,6 +3,8 @@ import DryocVerif.Model.CurveInst
 import DryocVerif.Spec.Blake2b
 import DryocVerif.Proofs.Curve
 import DryocVerif.Proofs.GenCurve
+import DryocVerif.Proofs.KdfExtra
+import DryocVerif.Model.KeyForms
 /-
 C12 — `crypto_kdf_derive_from_key` (/repo/src/classic/crypto_kdf.rs).
 
@@ -11,7 +13,12 @@ C12 — `crypto_kdf_derive_from_key` (/repo/src/classic/crypto_kdf.rs).
   salt = LE64(subkey_id) ‖ 0⁸ and personalisation = ctx ‖ 0⁸, empty message;
 * domain separation: the BLAKE2b parameter block (the only place where the sub-key
   length, the sub-key id and the context enter the hash) is injective in
-  (length, id, context) over the admissible range.
+  (length, id, context) over the admissible range, and so is the initial chaining value
+  computed from it (`kdf_initState_injective`);
+* the derivation through dryoc's OWN BLAKE2b (`Model.KeyForms.kdfDeriveImpl`: `State::init(..)?`
+  then `finalize`, both with their `Result`) equals the abstract model instantiated with the
+  specification's BLAKE2b, for every input with a 32-byte key and an 8-byte context
+  (`kdfDeriveImpl_eq_kdfDerive`, `kdf_impl_eq_spec`): `init` and `finalize` never fail there.
 -/
 namespace DryocVerif.Properties.C12
 open DryocVerif DryocVerif.Model.Curve
@@ -78,14 +85,112 @@ theorem param_block_injective_32 (len len' id id' : Nat) (ctx ctx' : Bytes)
     len = len' ∧ id = id' ∧ ctx = ctx' :=
   param_block_injective len len' id id' 32 ctx ctx' hl hl' hid hid' hc hc' h
 
-/-- the initial chaining value of the derivation depends on (len, id, ctx) only through
-that parameter block -/
-theorem kdf_initState (len id : Nat) (ctx key : Bytes) :
-    Spec.Blake2b.initState len key.length (toLE 8 id ++ zeros 8) (ctx ++ zeros 8) =
-      ((List.range 8).map fun i => Spec.Blake2b.IV[i]! ^^^
-        (Spec.Blake2b.wordsOfBytes 8
-          (Spec.Blake2b.paramBlock len key.length (toLE 8 id ++ zeros 8) (ctx ++ zeros 8)))[i]!).toArray :=
-  rfl
+/-- Domain separation at the level of the hash state: for 32-byte keys, equal BLAKE2b initial
+chaining values imply equal sub-key length, equal sub-key id (as `u64`, i.e. modulo 2^64) and
+equal context.  (XOR with the IV and little-endian word loading are injective on the 64-byte
+parameter block.)  So two derivations from the same key with different (length, id, context)
+start BLAKE2b from different states. -/
+theorem kdf_initState_injective (len len' id id' : Nat) (ctx ctx' : Bytes)
+    (hl : 16 ≤ len ∧ len ≤ 64) (hl' : 16 ≤ len' ∧ len' ≤ 64)
+    (hc : ctx.length = 8) (hc' : ctx'.length = 8)
+    (h : Spec.Blake2b.initState len 32 (toLE 8 id ++ zeros 8) (ctx ++ zeros 8) =
+         Spec.Blake2b.initState len' 32 (toLE 8 id' ++ zeros 8) (ctx' ++ zeros 8)) :
+    len = len' ∧ id % 2 ^ 64 = id' % 2 ^ 64 ∧ ctx = ctx' := by
+  have hp := Proofs.KdfExtra.initState_inj _ _ _ _ _ _ _ _ h
+  have e1 : toLE 8 (id % 2 ^ 64) = toLE 8 id := Proofs.Curve.toLE_mod 8 id
+  have e2 : toLE 8 (id' % 2 ^ 64) = toLE 8 id' := Proofs.Curve.toLE_mod 8 id'
+  rw [← e1, ← e2] at hp
+  exact param_block_injective_32 len len' _ _ ctx ctx' hl hl'
+    (Nat.mod_lt _ (by decide)) (Nat.mod_lt _ (by decide)) hc hc' hp
+
+/-- the same for the state dryoc's `State::init` actually builds (`init_param` on the packed
+`Params` struct, before the key block is absorbed) -/
+theorem kdf_model_initState_injective (len len' id id' : Nat) (ctx ctx' key key' : Bytes)
+    (hl : 16 ≤ len ∧ len ≤ 64) (hl' : 16 ≤ len' ∧ len' ≤ 64)
+    (hk : key.length = 32) (hk' : key'.length = 32)
+    (hc : ctx.length = 8) (hc' : ctx'.length = 8)
+    (h : (Proofs.Blake2b.initS0 (len % 256) (some key) (some (toLE 8 id ++ zeros 8))
+            (some (ctx ++ zeros 8))).h =
+         (Proofs.Blake2b.initS0 (len' % 256) (some key') (some (toLE 8 id' ++ zeros 8))
+            (some (ctx' ++ zeros 8))).h) :
+    len = len' ∧ id % 2 ^ 64 = id' % 2 ^ 64 ∧ ctx = ctx' := by
+  have l1 : ∀ i : Nat, (toLE 8 i ++ zeros 8).length = 16 := fun i => by
+    simp [Proofs.Curve.toLE_length, zeros]
+  have l2 : ∀ c : Bytes, c.length = 8 → (c ++ zeros 8).length = 16 := fun c h => by simp [h, zeros]
+  have e := Proofs.Blake2b.initS0_h len key (some (toLE 8 id ++ zeros 8)) (some (ctx ++ zeros 8))
+    hl.2 (by omega) (by intro s hs; cases hs; exact l1 id) (by intro s hs; cases hs; exact l2 ctx hc)
+  have e' := Proofs.Blake2b.initS0_h len' key' (some (toLE 8 id' ++ zeros 8)) (some (ctx' ++ zeros 8))
+    hl'.2 (by omega) (by intro s hs; cases hs; exact l1 id') (by intro s hs; cases hs; exact l2 ctx' hc')
+  rw [Proofs.KdfExtra.keyOpt_some key hk] at e
+  rw [Proofs.KdfExtra.keyOpt_some key' hk'] at e'
+  rw [e, e', hk, hk'] at h
+  exact kdf_initState_injective len len' id id' ctx ctx' hl hl' hc hc' h
+
+/-- non-vacuity witness for `kdf_initState_injective`: with ids 0 and 2^64 (the same `u64`) the
+two states ARE equal, so the conclusion `id % 2^64 = id' % 2^64` cannot be strengthened -/
+example : Spec.Blake2b.initState 32 32 (toLE 8 0 ++ zeros 8) (zeros 8 ++ zeros 8) =
+    Spec.Blake2b.initState 32 32 (toLE 8 (2 ^ 64) ++ zeros 8) (zeros 8 ++ zeros 8) := by
+  have : toLE 8 (2 ^ 64) = toLE 8 0 := by decide
+  rw [this]
+
+/-! ### the derivation through dryoc's own BLAKE2b -/
+
+/-- dryoc's BLAKE2b model (`State::init(len as u8, Some(key), Some(salt), Some(personal))`, no
+`update`, `finalize` into `len` bytes) on the KDF's arguments returns `Ok` with the specification's
+keyed / salted / personalised BLAKE2b of the empty message: the two `Result`s of the Rust code
+path are never `Err` for an admissible length, a 32-byte key and an 8-byte context. -/
+theorem kdf_impl_eq_spec (len id : Nat) (ctx key : Bytes) (h : 16 ≤ len ∧ len ≤ 64)
+    (hk : key.length = 32) (hc : ctx.length = 8) :
+    Model.Blake2b.hashChunksC Model.Blake2b.compress len (some key)
+        (some (toLE 8 id ++ zeros 8)) (some (ctx ++ zeros 8)) [] =
+      .ok (Spec.Blake2b.hashSP len key (toLE 8 id ++ zeros 8) (ctx ++ zeros 8) []) :=
+  Proofs.KdfExtra.kdf_impl_eq_spec len id ctx key h hk hc
+
+/-- The statement-by-statement model of `crypto_kdf_derive_from_key` with dryoc's BLAKE2b
+(`Model.KeyForms.kdfDeriveImpl`) is the abstract model `kdfDerive` instantiated with the
+specification's BLAKE2b — for every length (admissible or not) and id, 32-byte key, 8-byte
+context.  This is what connects `kdf_eq_spec` (over an abstract hash) to the code. -/
+theorem kdfDeriveImpl_eq_kdfDerive (len id : Nat) (ctx key : Bytes)
+    (hk : key.length = 32) (hc : ctx.length = 8) :
+    Model.KeyForms.kdfDeriveImpl len id ctx key = kdfDerive specPrims len id ctx key :=
+  Proofs.KdfExtra.kdfDeriveImpl_eq_kdfDerive len id ctx key hk hc
+
+/-- composed: the code path computes libsodium's `crypto_kdf_blake2b_derive_from_key` -/
+theorem kdfDeriveImpl_eq_spec (len id : Nat) (ctx key : Bytes) (h : 16 ≤ len ∧ len ≤ 64)
+    (hk : key.length = 32) (hc : ctx.length = 8) :
+    Model.KeyForms.kdfDeriveImpl len id ctx key =
+      .ok (Spec.Blake2b.hashSP len key (toLE 8 id ++ zeros 8) (ctx ++ zeros 8) []) := by
+  rw [kdfDeriveImpl_eq_kdfDerive len id ctx key hk hc, kdf_eq_spec len id ctx key h.1 h.2]
+
+/-- the code path fails exactly on the inadmissible lengths and never panics (so neither
+`copy_from_slice` nor the key-block slice index inside `State::init` can) -/
+theorem kdfDeriveImpl_err_iff (len id : Nat) (ctx key : Bytes)
+    (hk : key.length = 32) (hc : ctx.length = 8) :
+    (Model.KeyForms.kdfDeriveImpl len id ctx key = .err ↔ len < 16 ∨ 64 < len) ∧
+    Model.KeyForms.kdfDeriveImpl len id ctx key ≠ .panic := by
+  rw [kdfDeriveImpl_eq_kdfDerive len id ctx key hk hc]
+  exact ⟨kdf_err_iff _ _ _ _ _, kdf_never_panics _ _ _ _ _⟩
+
+/-- the derived sub-key has the requested length -/
+theorem kdfDeriveImpl_length (len id : Nat) (ctx key out : Bytes)
+    (hk : key.length = 32) (hc : ctx.length = 8)
+    (h : Model.KeyForms.kdfDeriveImpl len id ctx key = .ok out) : out.length = len := by
+  have hl : ¬ (len < 16 ∨ 64 < len) := by
+    intro hl
+    rw [((kdfDeriveImpl_err_iff len id ctx key hk hc).1).2 hl] at h; cases h
+  rw [kdfDeriveImpl_eq_spec len id ctx key (by omega) hk hc] at h
+  cases h
+  unfold Spec.Blake2b.hashSP
+  simp only [List.length_take]
+  rw [Proofs.Blake2b.bytesOfWords_length _
+    (Proofs.Blake2b.spec_absorb_size _ _ _ (by simp [Spec.Blake2b.initState]))]
+  omega
+
+/-- non-vacuity witness: the hypotheses of the four theorems above hold for length 32, id 7,
+context 0⁸, key 0³² — and the code path then returns `Ok` -/
+example : ∃ out, Model.KeyForms.kdfDeriveImpl 32 7 (zeros 8) (zeros 32) = .ok out ∧ out.length = 32 := by
+  have h := kdfDeriveImpl_eq_spec 32 7 (zeros 8) (zeros 32) (by decide) (by decide) (by decide)
+  exact ⟨_, h, kdfDeriveImpl_length 32 7 _ _ _ (by decide) (by decide) h⟩
 
 /-! ### non-vacuity -/
 
